@@ -53,6 +53,17 @@ func clBarrierLockset(c *Ctx) {
 				"session tagging state is written outside ab.Lock(): two concurrent flushes can hand out the same sequence number or tag the wrong session")
 		}
 	}
+	// the current-session pointer is swapped only under the mutex (single flusher),
+	// so that close numbers are taken in the order the sessions were closed
+	fSess := p.Field("skiplist", "AccessBarrier", "session")
+	for _, w := range p.fieldWrites(fSess) {
+		if isFreshBase(w.base) {
+			continue
+		}
+		n++
+		c.Check(w.kind != "store" && p.mutexHeld(p.Info(w.fn), w.in), w.fn, w.in, cnt.in(w.fn, "session swap under the barrier mutex"),
+			"two racing flushers can swap sessions in one order and take close numbers in the other: a later-closed session is destructed before an earlier-closed one whose accessors can still reach its objects")
+	}
 	// try-lock owned state
 	fRun := p.Field("skiplist", "AccessBarrier", "isDestructorRunning")
 	doCleanup := p.Func("skiplist", "AccessBarrier", "doCleanup")
